@@ -315,3 +315,11 @@ func refusedAttr(r *rng.R, op string) mb.Attr {
 	}
 	return pick(r, mb.AI("bogus_attribute", 1), mb.AF("another_bogus_attribute", 0.5), mb.AInts("axes_bogus", 1, 2))
 }
+
+// DefaultRecurrentEntry: a recurrent node that relies on every default (no activations list, no optional
+// attributes), used as a sentinel.
+func DefaultRecurrentEntry(kind string) *Entry {
+	c := Recurrent{Kind: kind, Input: 3, Hidden: 3, HasB: true, HasH0: true, HasC0: kind == "LSTM", InputForget: -1}
+	oc := c.OpCase(rng.New(11), rng.New(12), 3, 2, true)
+	return Bind("sentinel/default-"+kind, []OpCase{oc}, nil, true)
+}
